@@ -102,6 +102,46 @@ func VP_C19_roundtrip() {
 }
 
 //vp:property C19
+//vp:set klen 2 3
+//vp:set vlen 2 3
+//vp:bounds "for EVERY settings map of integers and strings": a map with one entry whose key (1..klen bytes) and string value (0..vlen bytes) are ARBITRARY ASCII — colons, '#', blanks, CR and LF included — beside one ordinary entry ("zz" -> 7)
+//vp:assume bytes are ASCII. A map the line format cannot carry (key empty / with ':' / starting with '#'; key or value with CR or LF or a leading or trailing blank) may be refused by Marshal with an error; what Marshal does accept must read back as the same map
+//vp:reach roundtrip refused
+func VP_C19_roundtrip_any_strings() {
+	k := vpString("k", vpParam("klen"))
+	v := vpString("v", vpParam("vlen"))
+	vpAssume(len(k) >= 1)
+	for i := 0; i < len(k); i++ {
+		vpAssume(k[i] < 0x80)
+	}
+	for i := 0; i < len(v); i++ {
+		vpAssume(v[i] < 0x80)
+	}
+	vpAssume(k != "zz")
+	m := map[string]interface{}{k: v, "zz": 7}
+	p := Parser()
+	text, err := p.Marshal(m)
+	vpObserveBool("marshalled", err == nil)
+	representable := vpAnd(vpAnd(vpCleanASCII(k), vpAnd(vpNoColon(k), k[0] != '#')), vpCleanASCII(v))
+	if err != nil {
+		vpReach("refused")
+		vpAssert(!representable, "marshal-refuses-only-maps-the-format-cannot-carry")
+		return
+	}
+	back, err := p.Unmarshal(text)
+	vpAssert(err == nil, "own-output-is-accepted-by-the-reader")
+	if err != nil {
+		return
+	}
+	vpReach("roundtrip")
+	vpAssert(len(back) == 2, "same-number-of-settings")
+	got, ok := back[k].(string)
+	vpAssert(ok && got == v, "string-setting-restored")
+	z, ok := back["zz"].(int)
+	vpAssert(ok && z == 7, "integer-setting-restored")
+}
+
+//vp:property C19
 //vp:set n 5 7
 //vp:set budget 120 900
 //vp:bounds one arbitrary ASCII line of 0..n bytes without CR/LF offered to the reader
@@ -193,4 +233,33 @@ func VP_C19_roundtrip_large() {
 	s2, ok2 := back["cccccccccc"].(string)
 	vpAssert(ok0 && len(s0) == fill, "long-setting-restored")
 	vpAssert(ok1 && s1 == v1 && ok2 && s2 == v2, "settings-after-the-buffer-boundary-restored")
+}
+
+
+//vp:property C19
+//vp:set maxalloc 140000 140000
+//vp:set loopmax 400000 400000
+//vp:bounds a template of three lines: a well-formed one, a line whose string value has 65500 / 65536 / 70000 bytes (around the line scanner's 64 KiB token limit), and a third line that is well-formed or malformed (no type field); CRLF line ends
+//vp:reach read refused
+func VP_C19_lines_overlong() {
+	n := []int{65500, 65536, 70000}[vpIntRange("long-value-bytes", 0, 2)]
+	filler := make([]byte, n)
+	for i := range filler {
+		filler[i] = 'x'
+	}
+	third := []string{"use multimon:i:1", "this is not a valid line"}[vpIntRange("third-line", 0, 1)]
+	text := "smart sizing:i:1\r\nfoo:s:" + string(filler) + "\r\n" + third + "\r\n"
+	m, err := Parser().Unmarshal([]byte(text))
+	if err != nil {
+		vpReach("refused")
+		vpAssert(m == nil, "no-settings-with-an-error")
+		return
+	}
+	vpReach("read")
+	// accepted: then nothing was skipped — all three lines are settings, none was malformed
+	vpAssert(third == "use multimon:i:1", "malformed-lines-are-rejected-not-skipped")
+	_, has1 := m["smart sizing"]
+	foo, has2 := m["foo"].(string)
+	_, has3 := m["use multimon"]
+	vpAssert(has1 && has2 && len(foo) == n && has3, "no-line-of-an-accepted-template-is-silently-dropped")
 }
